@@ -480,7 +480,16 @@ func (fc *FnCtx) loopHeader(li *LoopInfo) {
 	// 2. havoc everything the loop may write
 	ws := fc.loopWriteSet(li)
 	if ws.All {
+		keep := map[string]Term{}
+		for k := range ws.Except {
+			if _, ok := fc.svSort[k]; ok && !ws.Names[k] {
+				keep[k] = fc.lookup(k)
+			}
+		}
 		fc.havocHeap()
+		for _, k := range sortedKeys(keep) {
+			fc.env.inc[k] = keep[k].S
+		}
 	}
 	for _, name := range ws.sorted() {
 		if _, ok := fc.svSort[name]; !ok {
